@@ -38,7 +38,7 @@ impl StepOracle for C07Oracle {
             }
             Call::Cw20 { msg, .. } => {
                 // the token contract only keeps the books: its own account is NOT a party to the operation
-                if let cw20::Cw20ExecuteMsg::Send { contract, .. } = msg {
+                if let cw20::Cw20ExecuteMsg::Send { contract, .. } | cw20::Cw20ExecuteMsg::SendFrom { contract, .. } = msg {
                     allowed.insert(contract.clone());
                     if let Some(p) = pair_by_addr(w, contract) {
                         addressed_pairs.push(p);
@@ -77,6 +77,16 @@ impl StepOracle for C07Oracle {
             Intent::Transfer { to, .. } => receiver = Some(to.clone()),
             _ => {}
         }
+        // a hook delivered through `SendFrom` spends an allowance its OWNER granted to the actor: the owner's
+        // balance of exactly that token falls by exactly the amount sent - nothing else of the owner may move
+        let spent: Option<(String, String, i128)> = match cx.intent {
+            Intent::Swap { payer, delivered, .. } if *payer != sender => match delivered.first() {
+                Some((AssetInfo::Token { contract_addr }, a)) => Some((payer.clone(), contract_addr.clone(), -(*a as i128))),
+                _ => None,
+            },
+            Intent::Withdraw { pair, amount, owner, .. } if *owner != sender => Some((owner.clone(), w.pairs[*pair].lp.to_string(), -(*amount as i128))),
+            _ => None,
+        };
         let receiver_is_party = receiver.as_ref().map(|r| allowed.contains(r)).unwrap_or(true);
         if let Some(r) = &receiver {
             allowed.insert(r.clone());
@@ -117,6 +127,14 @@ impl StepOracle for C07Oracle {
                     *sums.entry(format!("cw20:{}", token)).or_default() += d;
                     let is_lp = lp_of(token);
                     let mut ok = allowed.contains(account);
+                    let mut is_spent = false;
+                    if let Some((o, t, want)) = &spent {
+                        if account == o && token == t && d == *want {
+                            ok = true;
+                            is_spent = true;
+                            classes.push("c:allowance-owner-paid-for-SendFrom");
+                        }
+                    }
                     if let Some(p) = is_lp {
                         // the reserved unit of a first provision lives at the LP token's own address
                         if account == token && d == 1 && matches!(cx.intent, Intent::Provide { pair, .. } if *pair == p) && snap_supply(&cx.rec.before, token) == 0 {
@@ -126,7 +144,8 @@ impl StepOracle for C07Oracle {
                     if !ok {
                         return Verdict::Fail(format!("step {}: {}'s balance of token {} changed by {} although it is neither the actor, the addressed contract nor the receiver", cx.index, account, token, d));
                     }
-                    if Some(account) == receiver.as_ref() && !receiver_is_party && d < 0 {
+                    // (the owner behind a `SendFrom` may be the designated receiver too: what it pays is judged above)
+                    if Some(account) == receiver.as_ref() && !receiver_is_party && d < 0 && !is_spent {
                         return Verdict::Fail(format!("step {}: receiver {}'s balance of token {} decreased by {}", cx.index, account, token, -d));
                     }
                 }
